@@ -240,10 +240,25 @@ func (m *mavenExtension) init(input string) error {
 // isEmptyMavenElem reports whether is defined to be equivalent
 // to the empty string for the purpose of ordering.
 func isEmptyMavenElem(s string) bool {
-	if s == "0" {
+	if isZeroMavenNumber(s) {
 		return true
 	}
 	return mavenVersionQualifierOrder[s] == mavenEmptyQualifier
+}
+
+// isZeroMavenNumber reports whether s is a number whose value is zero,
+// however many digits it is written with ("0", "00", ...).
+func isZeroMavenNumber(s string) bool {
+	n := len(s)
+	if n == 0 {
+		return false
+	}
+	for i := 0; i < n; i++ {
+		if s[i] != '0' {
+			return false
+		}
+	}
+	return true
 }
 
 // mavenPadElement returns an element for padding out a short
